@@ -367,14 +367,20 @@ def main(tier, replay=None):
         "(get_primary_unit/get_secondary_unit + get_analysis, use_all_in_library, has_package_body): that the real "
         "analysis reads library state only through this API is checked by the end-to-end differential, not proved",
         "sequential model (one worker, world order); the set of libraries is fixed; hash-map iteration order = list order",
+        "all-worlds theorem: analyses propagate CircularDependencyError (`?`), i.e. end with has_circular_dependency at the "
+        "first read that fails and only then",
         "hook H2 (cfg-guarded additions in analysis/root.rs, project.rs) reports the bookkeeping faithfully",
         "lint function of a family without primary unit reports nothing (lint_ok), read off analyze_architecture / "
         "analyze_package_body which return before declaring anything when the primary unit is missing",
     ]
     res.coverage["partial"] = True
-    res.coverage["partial_note"] = ("C01_incremental_eq_fresh_partial is proved for histories whose worlds have no circular "
-                                    "dependencies (clean); cyclic worlds are covered by the finite sweep "
-                                    "C01_incremental_eq_fresh_small_scope (870 cyclic worlds of 1620) and the oracle")
+    res.coverage["partial_note"] = (
+        "two general theorems: C01_incremental_eq_fresh_partial/_every_step for ARBITRARY analyses over histories "
+        "whose worlds have no circular dependencies, and C01_incremental_eq_fresh_all_worlds for ALL worlds (cycles "
+        "included) for analyses that propagate a circular-dependency error (both runs compute the static reference "
+        "`ref`); for analyses that discard the error equality is false in the sequential model "
+        "(C01_discarding_errors_breaks_equality), the one such place in the code (analyze_use_clause on a use clause "
+        "that is not a selected name) is left to the oracle and to C04; finite sweep over 1620 worlds (870 cyclic) kept")
     res.assumptions = [
         "comparison is skipped (the step stays in the history) when the fresh project reports a design-unit level "
         "Duplicate whose previous definition is in another file (DESIGN.md 4.0)",
